@@ -221,8 +221,9 @@ func (r *Run) Finish(exhaustive bool) {
 	}
 	if r.Replay == "" {
 		b, _ := json.MarshalIndent(evd, "", " ")
-		os.MkdirAll(filepath.Join(Root, "evidence"), 0o755)
-		if err := os.WriteFile(filepath.Join(Root, "evidence", r.ID+".json"), append(b, '\n'), 0o644); err != nil {
+		edir := envOr("VERIF_EVIDENCE_DIR", filepath.Join(Root, "evidence"))
+		os.MkdirAll(edir, 0o755)
+		if err := os.WriteFile(filepath.Join(edir, r.ID+".json"), append(b, '\n'), 0o644); err != nil {
 			fmt.Fprintln(os.Stderr, "cannot write evidence:", err)
 			os.Exit(2)
 		}
@@ -236,7 +237,7 @@ func (r *Run) Finish(exhaustive bool) {
 		v := &r.violations[i]
 		b, _ := json.MarshalIndent(map[string]interface{}{"property": r.ID, "violation": v}, "", " ")
 		h := sha256.Sum256([]byte(v.Signature))
-		dir := filepath.Join(Root, "replays", r.ID)
+		dir := filepath.Join(envOr("VERIF_REPLAY_DIR", filepath.Join(Root, "replays")), r.ID)
 		os.MkdirAll(dir, 0o755)
 		v.path = filepath.Join(dir, hex.EncodeToString(h[:6])+".json")
 		os.WriteFile(v.path, append(b, '\n'), 0o644)
